@@ -82,9 +82,103 @@ def call_law(law, A, B, x, lazy):
     return ev
 
 
+def rows_calls(A, lazy, variant):
+    """laws on lists of ROWS: the rows are cut from A (prefix-related rows, a longer one before a shorter one,
+    repeated rows included); rows and the outer list are eager or lazy"""
+    import vyxal.elements as E
+    import vyxal.helpers as H
+    from vyxal.context import Context
+
+    base = list(A[:4]) or [1]
+    shapes = [[base, base[:-1], base[:1], base], [base[:1], base[:2], base[:1], base[:3]], [base[:2], base[:2], base[1:]],
+              [base, base[:2], base[:2] + [9], base[:1], []], [[], [], base[:1]]]
+    R = [list(r) for r in shapes[variant % len(shapes)]]
+    probe = [list(R[0][:-1]), list(R[-1]), list(R[0]), list(base[:1]) + [7]][variant % 4]
+
+    def build(inner_lazy, outer_lazy):
+        rows = [mk(r, inner_lazy) for r in R]
+        return mk(rows, outer_lazy)
+    calls = []
+    for law, fn, kind in (("rows-uniquify", "uniquify", "1"), ("rows-count", "count_item", "p"), ("rows-contains", "contains", "p"),
+                          ("rows-allequal", "all_equal", "1"), ("rows-counts", "counts", "1"), ("rows-group", "group_consecutive", "1")):
+        for il, ol in ((lazy, False), (lazy, True), (False, lazy)):
+            ctx = Context()
+            ev = {"law": law, "a": R, "b": probe, "x": 0, "out": {"i": 0}, "err": ""}
+            try:
+                arg = build(il, ol)
+                r = getattr(E, fn)(arg, ctx) if kind == "1" else getattr(E, fn)(arg, mk(probe, il), ctx)
+                ev["out"] = common.with_alarm(lambda _: c08.tagged(H.vyxalify(r) if not isinstance(r, list) else r), None, 10)
+            except common.CaseTimeout:
+                ev["err"] = "hang"
+            except Exception as e:  # noqa: BLE001
+                ev["err"] = type(e).__name__
+            calls.append(ev)
+    return calls
+
+
+def self_pair_calls(A, variant):
+    """a lazy list that was partly looked at (first item, a membership test that succeeds early, a truth test)
+    and is then paired with its own duplicate, as the element z and the idioms :Z :Y do"""
+    import vyxal.elements as E
+    import vyxal.helpers as H
+    from vyxal.context import Context
+
+    calls = []
+    if not A:
+        return calls
+    for peek in range(4):
+        ctx = Context()
+        ev = {"law": "zip-self", "a": list(A), "b": [], "x": 0, "out": {"i": 0}, "err": ""}
+        try:
+            L = mk(A, True)
+            if peek == 0:
+                E.head(L, ctx)
+            elif peek == 1:
+                E.contains(L, A[min(len(A) - 1, 1 + variant % 3)], ctx)
+            elif peek == 2:
+                bool(L)
+            r = E.vy_zip(L, H.deep_copy(L), ctx)
+            ev["out"] = common.with_alarm(lambda _: c08.tagged(r), None, 10)
+        except common.CaseTimeout:
+            ev["err"] = "hang"
+        except Exception as e:  # noqa: BLE001
+            ev["err"] = type(e).__name__
+        calls.append(ev)
+    return calls
+
+
+def nested_fold_calls(A, lazy, variant):
+    """sum and product of a list whose items are integers and flat lists (folds of the vectorising + and *)"""
+    import vyxal.elements as E
+    import vyxal.helpers as H
+    from vyxal.context import Context
+
+    a = list(A[:5])
+    if len(a) < 2:
+        return []
+    shapes = [[a[:2], a[2] if len(a) > 2 else 3], [a[0], a[1:3]], [a[:2], a[2:4] or [1]], [a[0], a[1], a[2:] or [2]], [[], a[0]]]
+    N = shapes[variant % len(shapes)]
+    calls = []
+    for law, fn in (("sum-nested", "vy_sum"), ("product-nested", "product")):
+        for inner_lazy in (False, lazy):
+            ctx = Context()
+            ev = {"law": law, "a": [], "b": [], "x": c08.tagged(N), "out": {"i": 0}, "err": ""}
+            try:
+                arg = [mk(v, inner_lazy) if isinstance(v, list) else v for v in N]
+                r = getattr(E, fn)(arg, ctx)
+                ev["out"] = common.with_alarm(lambda _: c08.tagged(H.vyxalify(r) if not isinstance(r, list) else r), None, 10)
+            except common.CaseTimeout:
+                ev["err"] = "hang"
+            except Exception as e:  # noqa: BLE001
+                ev["err"] = type(e).__name__
+            calls.append(ev)
+    return calls
+
+
 def observe(case):
     A, B, x, lazy = case
     calls = []
+    calls += rows_calls(A, lazy, len(A) + x) + self_pair_calls(A, x) + nested_fold_calls(A, lazy, len(A) + x)
     for law, (fn, kind) in LAWS.items():
         if law in ("powerset", "permutations", "sublists") and len(A) > 5:
             continue
